@@ -67,7 +67,10 @@ class Printer:
         grammar only recognises as a value by its first token (print, return,
         loop count, cycle start, zone/row/column) - a bare minus is not one."""
         self.open_end = False
-        if guarded and expr[0] == 'neg':
+        if guarded and expr[0] == 'neg' or guarded == 'index' and (
+                expr[0] == 'reg'):
+            # a bare minus is not recognised in these positions, and registers
+            # are documented as not usable for zone / row / column
             self.out.append(mark('{'))
             self.expr(expr, 0)
             self.out.append(mark('}'))
@@ -180,9 +183,9 @@ class Printer:
 
     def rng(self, keyword, values):
         self.out.append(kw(keyword))
-        self.rvalue(values[0], guarded=True)
+        self.rvalue(values[0], guarded='index')
         if values[1] is not None:
-            self.rvalue(values[1], guarded=True)
+            self.rvalue(values[1], guarded='index')
         else:
             self.open_end = True
 
